@@ -13,6 +13,7 @@
 From Coq Require Import List ZArith NArith QArith Qcanon String Ascii Bool.
 From Qryn Require Import lib.Strs model.Sql model.Logql model.LogqlPlan model.SqlEval model.LogqlSem model.LogqlMetricSem
   model.LogqlMetricE2E model.SqlEvalAgg.
+From Qryn Require model.SqlRender model.LogqlSemCheck.
 Import ListNotations.
 Open Scope string_scope.
 
@@ -124,6 +125,47 @@ End EXEC.
 
 Definition tie_id : forall A : Type, list A -> list A := fun _ l => l.
 Definition tie_rev : forall A : Type, list A -> list A := fun _ l => rev l.
+
+(* ---------- the IMPLEMENTATION's own statement ----------
+   `tree` is what harness/sqlparse (+ the shape normaliser of harness/cmd/logqlsql/impltree.go) recovers from the text the real
+   planners printed: a select whose WITH references are UNBOUND (`WRef alias empty_select`) and whose WITH list is the list of
+   the text. impl_prep (C07's LogqlSemCheck.prep) binds every reference BY ALIAS to the member of that alias of the WITH list
+   in scope - what ClickHouse does with the text; a Sql.v tree built by the planners carries the query inside the WRef, which
+   hides a capture: two members of one alias, of which Select.AddWith keeps the first - and folds the fragments of the log part
+   back into the forms SqlEval reads. Parser, normaliser and prep are untrusted: impl_text renders the prepared tree and the
+   check requires the bytes of the implementation's statement. *)
+Definition impl_prep (s : script) (c : pctx) (tree : select) : select :=
+  LogqlSemCheck.prep (LogqlSemCheck.days_near c) (LogqlSemCheck.frag_cands (log_part s)) tree.
+Definition impl_text (s : script) (c : pctx) (tree : select) : option string :=
+  SqlRender.render (impl_prep s c tree) (c_cluster c).
+
+Definition verdict_rows (t : option table) (want : option (list vrow)) : Z :=
+  match t, want with
+  | Some t, Some v => match map_opt out_of_row t with
+                      | Some rows => if same_multiset rows v then 0%Z else 1%Z
+                      | None => 1%Z end
+  | Some _, None => 1%Z
+  | None, Some _ => 2%Z
+  | None, None => 4%Z
+  end.
+Definition is_topk (s : script) : bool := match s with STopK _ => true | _ => false end.
+Definition no_reference (s : script) : bool := match s with STopK _ | SLog _ | SMacros => true | _ => false end.
+
+(* what the check prints for a case: the rendering of the prepared tree, the verdicts of the implementation's statement under
+   both tie orders against metric_ref_db and against the definition, and the two answers for a replay *)
+Record impl_obs := { io_text : option string; io_v1 : Z; io_v2 : Z; io_vdef : Z; io_wdef : option (list vrow);
+                     io_got : option (list (option (lmap * Z * Q))); io_want : option (list vrow) }.
+Definition impl_case (s : script) (c : pctx) (d : LogqlSem.database) (tree : select) : impl_obs :=
+  let q := impl_prep s c tree in
+  let want := ref_rows s c d in
+  let r1 := eval_stmt tie_id c d q in
+  {| io_text := SqlRender.render q (c_cluster c);
+     io_v1 := (if no_reference s then 3%Z else verdict_rows r1 want);
+     io_v2 := (if no_reference s then 3%Z else verdict_rows (eval_stmt tie_rev c d q) want);
+     io_vdef := (if agg_grouped s || no_reference s then 2%Z else
+                 match r1, ref_rows_def s c d with Some _, Some _ => verdict_rows r1 (ref_rows_def s c d) | _, _ => 2%Z end);
+     io_wdef := (if agg_grouped s then None else ref_rows_def s c d);
+     io_got := option_map (map out_of_row) r1; io_want := want |}.
 
 (* what the check prints for a case: verdicts under both tie orders, and the two answers for a replay *)
 Record exec_obs := { eo_v1 : Z; eo_v2 : Z; eo_vdef : Z; eo_wdef : option (list vrow); eo_got : option (list (option (lmap * Z * Q))); eo_want : option (list vrow) }.
